@@ -185,12 +185,13 @@ def _assert_addable(bundle: "Bundle", val: "BundleAttr", name: Any) -> None:
             msg = f"Cannot add {val} to {bundle} as `{name}`: it already is its attribute `{key}`"
             raise RuntimeError(msg)
     # And one holder. Adding it here re-names it, which neither a `Module` nor another `Bundle` holding it would notice.
-    from .module import _holder_of
+    from .module import _holder_of, _assert_not_declared_port
 
     held = _holder_of(val)
     if held is not None and held[0] is not bundle:
         msg = f"Cannot add {val} to {bundle}: it is attribute `{held[1]}` of {held[0]}. (Add a copy instead.)"
         raise RuntimeError(msg)
+    _assert_not_declared_port(bundle, val, held)
 
 
 @attrmagic.init
